@@ -23,6 +23,10 @@ GOENV = dict(os.environ, GOFLAGS="-mod=mod", GOPROXY="off", GOSUMDB="off", GOTOO
              CGO_ENABLED="0")
 FORBIDDEN = re.compile(r"\bsorry\b|\badmit\b|^\s*axiom\s|native_decide|bv_decide|implemented_by|\bunsafe\s|maxHeartbeats\s+0\b", re.M)
 OK_AXIOMS = {"propext", "Classical.choice", "Quot.sound"}
+# a regenerated module's own theorems count as obligations of ONE property (its owner); other properties that list it in
+# `gen` still regenerate and build it (so a change in the source breaks their proofs too) but do not count it again
+GEN_OWNER = {"TlbTypes": "C03", "IntTypes": "C03", "LevelMask": "C02", "CellDesc": "C02", "MinBits": "C06",
+             "BocHeader": "C07", "WalletV5Id": "C15", "WalletConsts": "C14"}
 
 
 def log(*a):
@@ -76,7 +80,7 @@ def build_harness(prop):
     modfile = "-modfile=" + os.path.join(wd, "go.mod")
     rc, o, dt = run(["go", "build", modfile, "-tags", "verif," + tag, "-o", out, "./cmd/vh"], cwd=HARN, env=GOENV)
     ext = None
-    if prop.get("gen"):
+    if prop.get("gen") or gen_deps(prop):
         ext = os.path.join(HARN, "bin", "extract_" + tag + suffix)
         rc2, o2, dt2 = run(["go", "build", modfile, "-o", ext, "./cmd/extract"], cwd=HARN, env=GOENV)
         if rc2 != 0:
@@ -86,11 +90,39 @@ def build_harness(prop):
     return out, ext, None
 
 
+def gen_deps(prop):
+    """TongoGen modules imported (transitively) by the property's proof modules but not in its own `gen` list"""
+    own = set(prop.get("gen", []))
+    deps, seen, todo = [], set(), list(prop["lean_modules"])
+    while todo:
+        m = todo.pop()
+        if m in seen:
+            continue
+        seen.add(m)
+        if m.startswith("TongoGen."):
+            n = m.split(".", 1)[1]
+            if n not in own and n not in deps:
+                deps.append(n)
+            continue
+        p = os.path.join(LEAN, m.replace(".", "/") + ".lean")
+        if os.path.exists(p):
+            for im in re.findall(r"^import\s+(\S+)", open(p).read(), flags=re.M):
+                if im.split(".")[0] in ("TongoModel", "TongoGen", "TongoProofs", "Driver"):
+                    todo.append(im)
+    return deps
+
+
 def regenerate(prop, ext):
     """run the translators; returns (list of generated lean modules, error or None)"""
     mods = []
     gdir = os.path.join(LEAN, "TongoGen")
     os.makedirs(gdir, exist_ok=True)
+    # modules of OTHER properties that this one imports: only make sure they exist (a fresh tree); they are
+    # regenerated and judged by their own property's check
+    for name in gen_deps(prop):
+        dst = os.path.join(gdir, name + ".lean")
+        if not os.path.exists(dst):
+            run([ext, name, "-repo", REPO, "-out", dst], cwd=HARN, env=GOENV)
     for name in prop.get("gen", []):
         tmp = os.path.join(ROOT, ".work", "gen_" + name + ".lean")
         if os.path.exists(tmp):
@@ -177,6 +209,8 @@ def lake_and_audit(prop, genmods, tier):
     thms = []
     for m in pmods + genmods:
         p = os.path.join(LEAN, m.replace(".", "/") + ".lean")
+        if m.startswith("TongoGen.") and GEN_OWNER.get(m.split(".", 1)[1], prop["id"]) != prop["id"]:
+            continue
         if os.path.exists(p):
             for (n, a, b) in theorems_in(p):
                 thms.append((m, n, a, b, p))
